@@ -197,6 +197,8 @@ type Hooks struct {
 	// false when that contradicts what the path already knows. When set, a lookup in a constant map literal with
 	// a non-constant key forks into one path per entry plus the miss.
 	AssumeKey func(in *Interp, st *State, key Value, k constant.Value, eq bool) bool
+	// DecideAnywhere: comparisons are put to Decide also outside conditions (assigned to a flag, returned).
+	DecideAnywhere bool
 	// CallValue handles a call through a function value that denotes a known declared function.
 	CallValue func(in *Interp, st *State, call *ast.CallExpr, fn *types.Func, args []Value) (out []valState, handled bool)
 	// BinOp may give a domain-specific result for a binary operation on abstract values.
@@ -1498,6 +1500,32 @@ func (in *Interp) eval(st *State, e ast.Expr) []valState {
 				}
 			case token.AND:
 				v = vs.v // address-of keeps the abstract value
+				if lit, isLit := stripParens(e.X).(*ast.CompositeLit); isLit && v.K == vStruct {
+					// &T{…} is shared with whatever is handed the pointer: only what the literal spells out is
+					// known here, the fields it leaves out may be written by code that is not followed
+					named := map[string]bool{}
+					keyed := true
+					for _, el := range lit.Elts {
+						kv, isKV := el.(*ast.KeyValueExpr)
+						if !isKV {
+							keyed = false
+							break
+						}
+						if id, isID := kv.Key.(*ast.Ident); isID {
+							named[id.Name] = true
+						}
+					}
+					if keyed {
+						nv := v
+						nv.Fields = map[string]Value{}
+						for k, fv := range v.Fields {
+							if named[k] {
+								nv.Fields[k] = fv
+							}
+						}
+						v = nv
+					}
+				}
 			case token.ARROW:
 				if in.h.Recv != nil {
 					if rv, ok := in.h.Recv(in, vs.st, e); ok {
@@ -1521,7 +1549,21 @@ func (in *Interp) eval(st *State, e ast.Expr) []valState {
 						continue
 					}
 				}
-				out = append(out, valState{r.st, in.binop(l.v, e.Op, r.v)})
+				v := in.binop(l.v, e.Op, r.v)
+				// a comparison the domain decides in a condition is decided wherever it is written
+				// (atEOF := err == io.EOF)
+				if v.K != vConst && in.h.Decide != nil && in.h.DecideAnywhere {
+					switch e.Op {
+					case token.EQL, token.NEQ, token.LSS, token.LEQ, token.GTR, token.GEQ:
+						switch in.h.Decide(in, r.st, e) {
+						case triTrue:
+							v = constV(constant.MakeBool(true))
+						case triFalse:
+							v = constV(constant.MakeBool(false))
+						}
+					}
+				}
+				out = append(out, valState{r.st, v})
 			}
 		}
 		return out
@@ -1706,6 +1748,12 @@ func (in *Interp) eval(st *State, e ast.Expr) []valState {
 				for i, n := range names {
 					if n != "" && i < len(a.vals) {
 						v.Fields[n] = a.vals[i]
+					}
+				}
+				// fields the literal leaves out hold their zero value
+				for i := 0; i < stt.NumFields(); i++ {
+					if _, has := v.Fields[stt.Field(i).Name()]; !has {
+						v.Fields[stt.Field(i).Name()] = in.zeroOf(stt.Field(i).Type())
 					}
 				}
 				out = append(out, valState{a.st, v})
@@ -2218,6 +2266,33 @@ func (in *Interp) literalValue(e ast.Expr) Value {
 			return Value{K: vFunc, FnObj: f}
 		}
 	case *ast.CompositeLit:
+		// a struct literal of constants (an entry of a table): its fields
+		if t := in.c.typeOf(x); t != nil {
+			if stt, isS := t.Underlying().(*types.Struct); isS {
+				sv := Value{K: vStruct, T: t, Fields: map[string]Value{}}
+				for i, el := range x.Elts {
+					name, ve := "", el
+					if kv, isKV := el.(*ast.KeyValueExpr); isKV {
+						if id, isID := kv.Key.(*ast.Ident); isID {
+							name = id.Name
+						}
+						ve = kv.Value
+					} else if i < stt.NumFields() {
+						name = stt.Field(i).Name()
+					}
+					if name != "" {
+						sv.Fields[name] = in.literalValue(ve)
+					}
+				}
+				// fields left out hold their zero value
+				for i := 0; i < stt.NumFields(); i++ {
+					if _, has := sv.Fields[stt.Field(i).Name()]; !has {
+						sv.Fields[stt.Field(i).Name()] = in.zeroOf(stt.Field(i).Type())
+					}
+				}
+				return sv
+			}
+		}
 		list := Value{K: vList}
 		for _, el := range x.Elts {
 			if _, isKV := el.(*ast.KeyValueExpr); isKV {
